@@ -385,6 +385,11 @@ def bbnoh_case(draw, n_min=1, n_max=6, kinds=('ideal_gas_eos', 'stiffened_gas_eo
         # otherwise the ideal-gas state is not a physically reasonable starting guess
         rho_ideal = ((g + 1) / (g - 1)) ** (sym + 1)
         spec['args']['b'] = draw(logu(0.005, 0.25)) / rho_ideal
+    if spec['cls'] == 'stiffened_gas_eos':
+        # likewise the stiffness: rho_inf c_s^2 / gamma must stay small against the ram pressure rho0 u0^2 = 1, otherwise the ideal-gas Noh
+        # state is far from the physical root and not a 'physically reasonable starting guess' (thorough-tier case gamma = 1.15, spherical,
+        # c_s = 0.56: Newton converged from it to a root with negative shock speed)
+        spec['args']['c_s'] = draw(logu(0.05, 0.3))
     wrapper = draw(st.booleans())
     if wrapper:
         path = BBNOH + ['Planar', 'Cylindrical', 'Spherical'][sym] + 'NohBlackBox'
